@@ -64,6 +64,8 @@ SNIPPETS = [
     'def g(x):\n    y = x\n    z = 1\n    return y\n\nimport sys\nundefined_thing\n',
     'x = "text"\nx.upper\ny = [1, 2]\nlen(y)\n',
     'class A:\n    def m(self):\n        self.q = 1\n    def n(self):\n        return self.q\n\na = A()\na.m\na.q\n',
+    # top-level names that exist only as files of the library's own package directory: no import statement finds them
+    'import merged_dict\nmerged_dict.MergedDict\nimport nast, umsgpack\nnast.extract\numsgpack.dumps\nfrom evaluator import EvalCtx\nEvalCtx.evaluate\n',
 ]
 
 
